@@ -3,13 +3,20 @@ package cluster
 import (
 	"fmt"
 	"math"
+	"net"
+	"os"
 	"runtime"
+	"sync"
+	"testing/synctest"
 	"time"
 
 	cs "github.com/lianxiangcloud/linkchain/consensus"
 	cstypes "github.com/lianxiangcloud/linkchain/consensus/types"
 	cmn "github.com/lianxiangcloud/linkchain/libs/common"
 	"github.com/lianxiangcloud/linkchain/libs/crypto/merkle"
+	"github.com/lianxiangcloud/linkchain/libs/log"
+	"github.com/lianxiangcloud/linkchain/libs/p2p"
+	"github.com/lianxiangcloud/linkchain/libs/p2p/conn"
 	"github.com/lianxiangcloud/linkchain/libs/ser"
 	"github.com/lianxiangcloud/linkchain/types"
 
@@ -308,7 +315,75 @@ func (b *byzActor) hostileAct() {
 	cl.c.Evals(1)
 	cl.hostileAt = cl.now
 	// delivered directly (the hostile peer is connected), as an event of its own
-	cl.push(&event{at: cl.now + time.Millisecond, kind: evDeliver, node: h.idx, from: b.n.idx, chID: m.chID, msg: m.bz, desc: m.name, hostile: m})
+	cl.push(&event{at: cl.now + time.Millisecond, kind: evDeliver, node: h.idx, from: b.n.idx, chID: m.chID, msg: m.bz, desc: m.name, hostile: m, viaConn: cl.sched.Bool(1, 3)})
+}
+
+// deliverViaConn hands bz to node to the way the network does: packets written
+// to a pipe, a real MConnection reading them, its receive routine calling the
+// reactor. It reports whether the connection ended with a recovered panic.
+func (cl *Cluster) deliverViaConn(to *Node, peer p2p.Peer, chID byte, bz []byte) (panicDropped bool) {
+	c1, c2 := net.Pipe()
+	cfg := conn.DefaultMConnConfig()
+	cfg.RecvRate = 1 << 40 // no rate limiting sleeps: one message, then the connection is closed
+	cfg.SendRate = 1 << 40
+	var mu sync.Mutex
+	var connErr interface{}
+	received, completed := 0, 0
+	onReceive := func(ch byte, b []byte) {
+		mu.Lock()
+		received++
+		mu.Unlock()
+		to.reactor.Receive(ch, peer, b)
+		mu.Lock()
+		completed++
+		mu.Unlock()
+	}
+	onError := func(r interface{}) {
+		mu.Lock()
+		connErr = r
+		mu.Unlock()
+	}
+	mc := conn.NewMConnectionWithConfig(c2, to.reactor.GetChannels(), onReceive, onError, cfg)
+	mc.SetLogger(log.NewNopLogger())
+	if err := mc.Start(); err != nil {
+		c1.Close()
+		c2.Close()
+		return false
+	}
+	go func() {
+		max := cfg.MaxPacketMsgPayloadSize
+		rest := bz
+		for {
+			chunk := rest
+			eof := byte(1)
+			if len(chunk) > max {
+				chunk, eof = rest[:max], 0
+			}
+			rest = rest[len(chunk):]
+			if _, err := ser.EncodeWriterWithType(c1, conn.PacketMsg{ChannelID: chID, EOF: eof, Bytes: chunk}); err != nil || eof == 1 {
+				return
+			}
+		}
+	}()
+	synctest.Wait()
+	mc.Stop()
+	c1.Close()
+	c2.Close()
+	synctest.Wait()
+	cl.c.Fault("hostile-message-through-real-connection")
+	mu.Lock()
+	defer mu.Unlock()
+	if received > 0 {
+		cl.c.Probe("real-connection-handed-message-to-reactor")
+	} else {
+		cl.c.Probe("real-connection-refused-message")
+	}
+	if connErr != nil && os.Getenv("VERIF_DEBUG") != "" {
+		cl.tracef("connErr: %.200s", fmt.Sprint(connErr))
+	}
+	// Receive did not return and the connection reported an error: the panic
+	// was recovered by the connection layer, which dropped the peer
+	return connErr != nil && received > completed
 }
 
 // stateFinger is the fingerprint of what the property calls "its state": the
